@@ -184,7 +184,25 @@ func (r *run) opReopen(n *node) {
 	var m2 *capnp.Message
 	var err error
 	how := ""
-	switch s.Choice("reopen-how", 3) {
+	switch s.Choice("reopen-how", 4) {
+	case 3:
+		// the segments as they are, handed to a new message with spare capacity behind each of
+		// them (a caller that keeps growing buffers it already has)
+		how = "MultiSegment over the existing segments (with spare capacity)"
+		var segs [][]byte
+		for i := int64(0); i < n.msg.NumSegments(); i++ {
+			sg, serr := n.msg.Segment(capnp.SegmentID(i))
+			if serr != nil {
+				err = serr
+				break
+			}
+			b := make([]byte, len(sg.Data()), len(sg.Data())+8*s.Choice("reopen-spare-words", 9))
+			copy(b, sg.Data())
+			segs = append(segs, b)
+		}
+		if err == nil {
+			m2 = &capnp.Message{Arena: capnp.MultiSegment(segs)}
+		}
 	case 0:
 		how = "Marshal/Unmarshal"
 		var data []byte
@@ -1391,6 +1409,24 @@ func (r *run) checkCanonical() {
 				return
 			}
 			s.Probe("canonical_dirty_padding_replica_checked")
+		}
+		// ... and a reader that runs into its depth or traversal limit must get an error, never a
+		// "canonical form" with the unread parts silently missing
+		lim := &capnp.Message{Arena: capnp.SingleSegment(append([]byte(nil), got...))}
+		if s.Choice("limit-kind", 2) == 0 {
+			lim.DepthLimit = uint(1 + s.Choice("limit-depth", 4))
+		} else {
+			lim.TraverseLimit = uint64(8 * (1 + s.Choice("limit-words", 12)))
+		}
+		if p6, err := lim.Root(); err == nil {
+			c6, err := capnp.Canonicalize(p6.Struct())
+			if err == nil && !bytes.Equal(c6, got) {
+				r.fail("canonical_mismatch", site, fmt.Sprintf("Canonicalize of a message read under DepthLimit=%d TraverseLimit=%d returned no error and a different form\n full    %x\n limited %x", lim.DepthLimit, lim.TraverseLimit, got, c6))
+				return
+			}
+			if err != nil {
+				s.Probe("canonicalize_stopped_by_read_limit")
+			}
 		}
 		padded := padValue(a.m, func(n int) int { return s.Choice("pad", n) })
 		segs = wire.Encode(padded, wire.EncOpts{})
